@@ -996,6 +996,61 @@ def S2S3(F, rep, FL, rules):
                if bad is None and un else 'unknown object type path %s' % (bad or 'not found'), nontrivial=True)
 
 
+def S4(F, rep):
+    """the in-memory stream's seekg is relative and bounded only by the declared end: the new get position depends on the old get
+    position, the offset and m_fileSize - on nothing else (data-flow slice of the assignment, through locals)"""
+    fn = F.fn('Vector::BLF::UncompressedFile::seekg')
+    rep.saw_function(fn['name'])
+    rep.count('S4')
+    params = {p['id']: p['name'] for p in fn['params']}
+    local_init = {}
+    for n in walk(fn['body'], into_lambda=False):
+        if n.get('k') == 'Decl':
+            for v in n['vars']:
+                local_init.setdefault(v['id'], []).append(v.get('init'))
+        if n.get('k') == 'Bin' and n.get('op') in ('=', '+=', '-=') and strip_all_casts(n['lhs']).get('k') == 'Ref':
+            local_init.setdefault(strip_all_casts(n['lhs'])['id'], []).append(n['rhs'])
+    deps = set()
+
+    def collect(e, depth=0):
+        for x in walk(e):
+            if x.get('k') == 'Member' and x.get('dk') == 'field':
+                deps.add(x['name'])
+            elif x.get('k') == 'Ref' and x.get('dk') == 'parm':
+                deps.add('param:' + params.get(x['id'], x.get('name')))
+            elif x.get('k') == 'Ref' and x.get('dk') == 'local' and depth < 4:
+                for i in local_init.get(x['id'], []):
+                    if i is not None:
+                        collect(i, depth + 1)
+    assigns = []
+    for n in walk(fn['body'], into_lambda=False):
+        tgt = None
+        if n.get('k') == 'Bin' and n.get('op') in ('=', '+=', '-='):
+            tgt, rhs = n['lhs'], n['rhs']
+        elif n.get('k') == 'Call' and n.get('ck') == 'operator' and n.get('op') in ('=', '+=', '-=') and len(n.get('args', [])) == 2:
+            tgt, rhs = n['args'][0], n['args'][1]
+        if tgt is not None and mname(tgt) == 'm_tellg':
+            assigns.append((n, rhs))
+            collect(rhs)
+            if n.get('op') in ('+=', '-='):
+                deps.add('m_tellg')
+    # conditions guarding the assignment also steer the result
+    for n in walk(fn['body'], into_lambda=False):
+        if n.get('k') == 'If':
+            if any(a[0] is x for a in assigns for x in walk(n)):
+                collect(n['cond'])
+    off = [pn for pn in params.values()]
+    need = {'m_tellg', 'param:' + (off[0] if off else 'off')}
+    allowed = need | {'m_fileSize'}
+    extra = sorted(deps - allowed)
+    missing = sorted(need - deps)
+    ok = bool(assigns) and not extra and not missing
+    rep.ob('S4', 'seekg|relative', ok, rep.fn_site(fn),
+           'UncompressedFile::seekg: the new get position is computed from the old one, the offset and the declared end only' if ok else
+           'UncompressedFile::seekg: the new get position %s - skipping an unknown object no longer lands on the next object' %
+           ('also depends on ' + ', '.join(extra) if extra else 'does not use ' + ', '.join(missing)), nontrivial=True)
+
+
 def T1(F, rep, FL):
     """progress: the net advance per decode iteration has a positive lower bound (interval domain over objectSize)"""
     fn, infos = offsets_u2q(F, FL)
